@@ -46,6 +46,7 @@ SLICE = z3.Function("list_slice", AV, I, I, Val)       # the list [arr[lo], ...,
 EMPTYLIST = z3.Const("empty_list", Val)
 ACT_RAISES = z3.Function("action_raises", Val, Val, Val, B)
 ACT_VALUE = z3.Function("action_value", Val, Val, Val, Val)
+TOK_RAISES = z3.Function("token_stream_raises_at", I, B)
 TOKS = z3.Const("TOKS", AV)
 NTOK = z3.Int("NTOK")
 INT_ATTRS = {"len": z3.Function("attr_int:len", Val, I)}
@@ -264,8 +265,14 @@ class ParseRegistry(Registry):
         if len(pos) != 2 or not isinstance(pos[1], PyNoneT) or not (isinstance(pos[0], PyObj) and p.heap[pos[0].oid]["cls"] == "iterator"):
             raise OutOfSubset("next() other than next(tokens, None)")
         k = p.ghost["tokens_pulled"]
-        pt, pf = ex.split(p, k < NTOK)
         out = []
+        # the token stream is the lexer's generator: pulling from it may raise (LexError from the lexer's error())
+        pr, p = ex.split(p, TOK_RAISES(k))
+        if pr is not None:
+            out.append((pr, Raise("TokenStreamRaised", "the token iterator raised while the next token was pulled (line %d)" % node.lineno)))
+        if p is None:
+            return out
+        pt, pf = ex.split(p, k < NTOK)
         if pt is not None:
             pt.ghost["tokens_pulled"] = k + 1
             pt.facts.append(TRUTHY(z3.Select(TOKS, k)))
@@ -529,9 +536,19 @@ def spec_candidates(T, cur, la, pos):
     return [
         ("defaulted", D, (la, pos, None), DICT_GET(T["defaulted"], cur)),
         ("lookahead-held", z3.And(z3.Not(D), TRUTHY(la)), (la, pos, ATTR("type")(la)), act(ATTR("type")(la))),
-        ("token-pulled", z3.And(z3.Not(D), z3.Not(TRUTHY(la)), pos < NTOK), (tok, pos + 1, ATTR("type")(tok)), act(ATTR("type")(tok))),
-        ("end-of-input", z3.And(z3.Not(D), z3.Not(TRUTHY(la)), pos >= NTOK), ("$end", pos, end), act(end)),
+        ("token-pulled", z3.And(z3.Not(D), z3.Not(TRUTHY(la)), z3.Not(TOK_RAISES(pos)), pos < NTOK), (tok, pos + 1, ATTR("type")(tok)), act(ATTR("type")(tok))),
+        ("end-of-input", z3.And(z3.Not(D), z3.Not(TRUTHY(la)), z3.Not(TOK_RAISES(pos)), pos >= NTOK), ("$end", pos, end), act(end)),
     ]
+
+
+def stream_raises_case(T, cur, la, pos):
+    """pulling the next token raises: the exception propagates out of parse() (nothing is swallowed, nothing is pushed)"""
+    D = DICT_HAS(T["defaulted"], cur)
+    cond = z3.And(z3.Not(D), z3.Not(TRUTHY(la)), TOK_RAISES(pos))
+
+    def check(real):
+        return z3.BoolVal(real["kind"] == "raise:TokenStreamRaised" and not real["calls"])
+    return cond, check
 
 
 def spec_cases(T, cur, la, pos, sarr, sn, yarr, yn, TRACK, cands):
@@ -607,4 +624,5 @@ def spec_cases(T, cur, la, pos, sarr, sn, yarr, yn, TRACK, cands):
             tyv = ty if ty is not None else ATTR("type")(la1)
             return arg == z3.If(tyv == STR2VAL(z3.StringVal("$end")), NONEVAL, la1)
         cases.append((z3.And(fcond, z3.Not(some)), error))
+    cases.append(stream_raises_case(T, cur, la, pos))
     return cases
